@@ -63,7 +63,7 @@ def _assign_value(f, env, rv, b, i):
     return None
 
 
-def extract(f, target=None, max_paths=4096, start=0, stop=()):
+def extract(f, target=None, max_paths=4096, start=0, stop=(), value_at=None):
     """Enumerate paths.  Without `target`: result = value assigned to `_0` at return.
     With `target` (a block id): result = ('const', True) when the path passes through
     `target` (a block or a set of blocks), ('const', False) when it returns, diverges or
@@ -84,6 +84,13 @@ def extract(f, target=None, max_paths=4096, start=0, stop=()):
         if b in stop:
             # end of the analysed region (e.g. the loop head): target not reached
             paths.append((conds, ("const", False)))
+            return
+        if value_at is not None and b == value_at[0]:
+            # read the boolean local `value_at[1]` on entry to this block
+            v = env.get(value_at[1])
+            if v is None:
+                raise Unsupported("value of _%d at bb%d is not a recognised boolean" % (value_at[1], b))
+            paths.append((conds, v))
             return
         env = dict(env)
         blk = f.blocks[b]
